@@ -71,16 +71,22 @@ pub fn rf_instruction(src: &mut Src, opts: &Opts) -> Instruction {
     let waveform = |src: &mut Src| -> quil_rs::instruction::WaveformInvocation {
         match src.below(4) {
             0 => rf::waveform("flat", &[("duration", rf::real(dyadic_duration(src))), ("iq", rf::real(1.0))]),
-            1 => rf::waveform(
-                "gaussian",
-                &[
-                    ("duration", rf::real(dyadic_duration(src))),
-                    ("pad_left", rf::real(src.below(5) as f64 / 8.0)),
-                    ("pad_right", rf::real(src.below(5) as f64 / 8.0)),
-                    ("fwhm", rf::real(0.5)),
-                    ("t0", rf::real(0.25)),
-                ],
-            ),
+            1 => {
+                // either padding may be left out (it then counts as zero)
+                let mut parameters = vec![("duration", rf::real(dyadic_duration(src)))];
+                let which = src.below(4);
+                let (left, right) = (rf::real(src.below(5) as f64 / 8.0), rf::real(src.below(5) as f64 / 8.0));
+                // 0: both, 1: only the right one, 2: only the left one, 3: neither
+                if which == 0 || which == 2 {
+                    parameters.push(("pad_left", left));
+                }
+                if which == 0 || which == 1 {
+                    parameters.push(("pad_right", right));
+                }
+                parameters.push(("fwhm", rf::real(0.5)));
+                parameters.push(("t0", rf::real(0.25)));
+                rf::waveform("gaussian", &parameters)
+            }
             2 => rf::waveform("custom4", &[]),
             _ => rf::waveform("flat", &[("duration", rf::real(dyadic_duration(src))), ("iq", value_expr(src, opts))]),
         }
